@@ -258,9 +258,27 @@ pub fn run_config<E: Env + Clone>(wenv: &E, renv: &E, cache: CacheCfg, steps: &[
     Ok(ConfigRun { trace, wfiles: wenv.files(), rfiles: renv.files(), hole_inside_data: hole_inside_data && reopened_after_hole, tree_reads_after_capacity: tree_calls > 3 })
 }
 
+/// Errors are compared by class (the `HypercoreError` variant), not by message: which of several
+/// unavailable tree nodes a refused request stumbles over first may legitimately depend on what is
+/// cached ("... out of bounds for store length" vs "... blank").
+fn class_only(t: &TraceItem) -> TraceItem {
+    let cls = |s: &String| s.split(':').next().unwrap_or("").to_string();
+    match t {
+        TraceItem::W(Out::Err(e)) => TraceItem::W(Out::Err(cls(e))),
+        TraceItem::Req { req, proof, writer_err, applied } => TraceItem::Req {
+            req: req.clone(),
+            proof: proof.clone(),
+            writer_err: writer_err.as_ref().map(cls),
+            applied: applied.as_ref().map(|a| a.as_ref().map(|b| *b).map_err(cls)),
+        },
+        TraceItem::RGet(i, Err(e)) => TraceItem::RGet(*i, Err(cls(e))),
+        other => other.clone(),
+    }
+}
+
 fn compare(name: &str, a: &ConfigRun, b: &ConfigRun, compare_files: bool) -> Check {
     for (k, (x, y)) in a.trace.iter().zip(b.trace.iter()).enumerate() {
-        if x != y {
+        if class_only(x) != class_only(y) {
             return Err(Failure::new(
                 format!("config-observation-differs:{}", name.split('/').next().unwrap_or(name)),
                 format!("configuration {name}: result {k} differs from the reference configuration: {} vs {}", truncate(&format!("{y:?}"), 400), truncate(&format!("{x:?}"), 400)),
